@@ -225,7 +225,12 @@ fn mapping_f64(d: &mut Draw) -> Outcome {
     d.note("l,r,b,t,n,f", &(l, r, b, t, n, f));
     vcore::tryo!(ortho_check(l, r, b, t, n, f, mix, tol));
     vcore::tryo!(frustum_check(l, r, b, t, n, f, [d.f64_in(-9.0, 9.0), d.f64_in(-9.0, 9.0), -d.f64_log(1e-2, 1e3)], tol));
-    let fovy = d.f64_in(0.01, PI - 0.01);
+    // the whole valid range (0, pi), including very narrow and very wide fields of view
+    let fovy = match d.int(0, 3) {
+        0 => d.f64_log(1e-9, 1e-2),
+        1 => PI - d.f64_log(1e-9, 1e-2),
+        _ => d.f64_in(0.01, PI - 0.01),
+    };
     let a = d.f64_log(0.1, 10.0) * if d.chance(1, 4) { -1.0 } else { 1.0 };
     d.note("fovy, aspect", &(fovy, a));
     vcore::tryo!(perspective_check(Rad(fovy), (fovy / 2.0).tan(), a, n, f, tol));
@@ -258,6 +263,45 @@ fn mapping_f64(d: &mut Draw) -> Outcome {
     let (pn, pfar) = if d.bool() { (pn, pfar) } else { (pfar, pn) };
     d.note("planar fovy, height, near, far", &(pf, h, pn, pfar));
     vcore::tryo!(planar_check(Rad(pf), th, a, h, pn, pfar, tol));
+    let pd = planar(cgmath::Deg(pf * 180.0 / PI), a, h, pn, pfar);
+    let pr = planar(Rad(pf), a, h, pn, pfar);
+    let big = pr.rm().map(|x| x.abs()).e.iter().flatten().fold(0.0f64, |m, x| m.max(*x));
+    ensure!(pd.rm().max_abs_diff(&pr.rm()) <= 1e-9 * (1.0 + big), "planar-deg", "planar(Deg) differs from planar(Rad)");
+    // scale covariance: the same volume measured in units 2^k times smaller is a valid tuple too, and
+    // M_s * diag(s,s,s,1) must be M up to the common homogeneous factor (1 or s); powers of two make
+    // every intermediate result scale exactly, so the allowance is a few ulps per entry
+    let k = d.int(-300, 300) as i32;
+    let sc = (2.0f64).powi(k);
+    d.note("scale", &sc);
+    let sc2 = if k < -30 { 1.0 } else { sc };
+    let pairs: [(&'static str, Matrix4<f64>, Matrix4<f64>); 4] = [
+        ("ortho-scaled", ortho(l, r, b, t, n, f), ortho(l * sc, r * sc, b * sc, t * sc, n * sc, f * sc)),
+        ("frustum-scaled", frustum(l, r, b, t, n, f), frustum(l * sc, r * sc, b * sc, t * sc, n * sc, f * sc)),
+        ("perspective-scaled", perspective(Rad(fovy), a, n, f), perspective(Rad(fovy), a, n * sc2, f * sc2)),
+        ("planar-scaled", planar(Rad(pf), a, h, pn, pfar), planar(Rad(pf), a, h * sc2, pn * sc2, pfar * sc2)),
+    ];
+    for (sig, m0, ms) in pairs {
+        // perspective and planar reject planes closer than machine epsilon in absolute terms
+        if k < -30 && (sig == "perspective-scaled" || sig == "planar-scaled") {
+            continue;
+        }
+        let (r0, rs) = (m0.rm(), ms.rm());
+        let mut ok_any = false;
+        for lam in [1.0, sc] {
+            let mut ok = true;
+            for c in 0..4 {
+                for r_ in 0..4 {
+                    let got = rs.e[c][r_] * if c < 3 { sc } else { 1.0 };
+                    let want = r0.e[c][r_] * lam;
+                    if !((got - want).abs() <= 16.0 * f64::EPSILON * want.abs()) {
+                        ok = false;
+                    }
+                }
+            }
+            ok_any |= ok;
+        }
+        ensure!(ok_any, sig, "{}: the matrix for the volume scaled by {:e} is not the scaled matrix: {:?} vs {:?}", sig, sc, ms, m0);
+    }
     pass(match kind { 0 => "planar-orthographic", 1 => "planar-focal-behind", _ => "planar-focal-in-front" }, true)
 }
 
@@ -277,6 +321,15 @@ fn rejection_f64(d: &mut Draw) -> Outcome {
     let at_boundary = d.bool();
     d.note("base (fovy, aspect, near, far)", &(fovy, a, n, f));
     d.note("base (l,r,b,t), height", &((l, r, b, t), h));
+    // every length-like argument is multiplied by one power of two: order, equality and sign of the
+    // tuple are untouched (exactly), so validity and the broken precondition are the same at every scale
+    // (not below 2^-30: perspective/planar call planes closer than machine epsilon in absolute
+    // terms "too close", so far smaller volumes are outside their domain)
+    let sc = if d.chance(1, 3) { (2.0f64).powi(d.int(-30, 300) as i32) } else { 1.0 };
+    d.note("all lengths scaled by", &sc);
+    let perspective = |fovy: Rad<f64>, a: f64, n: f64, f: f64| perspective(fovy, a, n * sc, f * sc);
+    let frustum = |l: f64, r: f64, b: f64, t: f64, n: f64, f: f64| frustum(l * sc, r * sc, b * sc, t * sc, n * sc, f * sc);
+    let planar = |fovy: Rad<f64>, a: f64, h: f64, n: f64, f: f64| planar(fovy, a, h * sc, n * sc, f * sc);
     let which = d.int(0, 15);
     d.note("broken precondition", &which);
     macro_rules! must_panic {
@@ -401,8 +454,9 @@ pub fn property() -> Property {
         title: "Projections map the view volume onto the clip cube and reject bad parameters",
         subchecks: s,
         assumptions: &[
-            "valid domain: l<r, b<t, 0<n<f (frustum), gaps at least 1e-3 relative in f64; fovy in (0.01, pi-0.01); |aspect| in [0.1,10]; planar: height>0, near != far of either order/sign, focal point strictly outside the planes",
+            "valid domain: l<r, b<t, 0<n<f (frustum), gaps at least 1e-3 relative in f64; fovy over the whole valid range (0, pi): uniform in (0.01, pi-0.01) in half of the cases, log-uniform 1e-9..1e-2 rad away from either end otherwise; |aspect| in [0.1,10]; planar: height>0, near != far of either order/sign, focal point strictly outside the planes",
             "Q tier: fovy is a named angle with rational tan(fovy/2) > 0; planar with fovy = 0 only in f64 (the constructor takes the reciprocal of 0)",
+            "scale: every valid tuple is also taken with all its lengths multiplied by 2^k, k in [-300,300] for ortho/frustum and [-30,300] for perspective/planar, which call planes closer than machine epsilon in absolute terms 'too close' (their documented assertion message) - such tuples are treated as outside their domain, not as rejections that must happen",
             "rejection: exactly one precondition broken, at the boundary value and beyond it; 'zero aspect' means exactly +-0.0, 'near = far' exactly equal",
             "a panic is detected with catch_unwind under a silent panic hook",
         ],
